@@ -1,4 +1,5 @@
 import JjModel.Lemmas.DiffMatch
+import JjModel.Lemmas.DiffOrder
 /-!
   C03 — Content diffs partition their inputs deterministically.
 
@@ -127,6 +128,33 @@ theorem compare_congruence (c : Compare) (a a' b b' : Bytes) (ha : c.eq a a' = t
     c.eq (a ++ b) (a' ++ b') = true := by
   simp only [Compare.eq, decide_eq_true_eq] at *
   exact norm_append_congr c a a' b b' ha hb
+
+/-! ### (e) determinism -/
+
+/-- **Determinism (e).**  The model is a function, so the hunks are a function of the inputs; what
+needs an argument is that the model's *choice* of a hash-table iteration order (first occurrence)
+is immaterial.  The iteration order of `Histogram::word_to_positions` reaches the algorithm only
+through the order in which the shared occurrences `pairs` are enumerated (the `serial` numbers):
+the selected count class and the set of pairs are order-independent.  For any two enumerations of
+the same pairs, the sorted position lists, `left_index_by_right_index`, the LCS and the emitted
+positions coincide. -/
+theorem serial_order_irrelevant {α : Type} [DecidableEq α]
+    (rec : List α → List α → Nat → Nat → List (Nat × Nat)) (left right : List α) (lo ro : Nat)
+    (pairs pairs' : List (Nat × Nat)) (hp : pairs.Perm pairs')
+    (h1 : (pairs.map Prod.fst).Nodup) (h2 : (pairs.map Prod.snd).Nodup) :
+    lcsWalk rec left right lo ro (sortByFst (withSerialFrom 0 (pairs.map Prod.fst)))
+        (sortByFst (withSerialFrom 0 (pairs.map Prod.snd)))
+        (findLcs (leftIndexByRightIndex (sortByFst (withSerialFrom 0 (pairs.map Prod.fst)))
+          (sortByFst (withSerialFrom 0 (pairs.map Prod.snd))))) 0 0 =
+      lcsWalk rec left right lo ro (sortByFst (withSerialFrom 0 (pairs'.map Prod.fst)))
+        (sortByFst (withSerialFrom 0 (pairs'.map Prod.snd)))
+        (findLcs (leftIndexByRightIndex (sortByFst (withSerialFrom 0 (pairs'.map Prod.fst)))
+          (sortByFst (withSerialFrom 0 (pairs'.map Prod.snd))))) 0 0 :=
+  lcs_step_order_irrelevant rec left right lo ro pairs pairs' hp h1 h2
+
+example : leftIndexByRightIndex (sortByFst (withSerialFrom 0 [3, 1, 5])) (sortByFst (withSerialFrom 0 [2, 7, 0]))
+    = leftIndexByRightIndex (sortByFst (withSerialFrom 0 [5, 3, 1])) (sortByFst (withSerialFrom 0 [0, 2, 7])) := by
+  decide
 
 /-! ### non-vacuity -/
 
